@@ -198,6 +198,48 @@ def _accumulate_summary_comprehension(fn, L, R, outs):
     return {"both": (1, sb), "left_only": +1, "right_only": sign}
 
 
+def _pairwise_inline(g, cases) -> Optional[str]:
+    """mul_terms / div_terms with the per-pair computation written in the loop: None if, for every pair of the product of the two
+    operands, the accumulated set receives exactly the documented ScaledFactor (through add_terms) or the documented error is raised."""
+    pg = param_names(g.node)
+    if len(pg) != 2:
+        return "expected two operands"
+    try:
+        outs = sym.outcomes(g.node)
+    except sym.Unmodelled as e:
+        return f"cannot be summarised: {e}"
+    loops = [l._sym_orig for l in sym.loops_of(outs)]
+    if len(loops) == 1 and isinstance(loops[0], ast.For) and sym.pm(f"itertools.product({pg[0]}, {pg[1]})", loops[0].iter) is not None \
+            and isinstance(loops[0].target, ast.Tuple) and len(loops[0].target.elts) == 2 and all(isinstance(e, ast.Name) for e in loops[0].target.elts):
+        tl, tr = (e.id for e in loops[0].target.elts)
+    elif len(loops) == 2 and all(isinstance(l, ast.For) and isinstance(l.target, ast.Name) for l in loops) and [norm(l.iter) for l in loops] == list(pg):
+        tl, tr = loops[0].target.id, loops[1].target.id
+    else:
+        return f"the pairs must come from itertools.product({pg[0]}, {pg[1]}) (or two nested loops in that order)"
+    inner = sym.loops_of(outs)[-1]
+    fin = [o for o in outs if o.kind == "return" and not o.loops]
+    if len(fin) != 1:
+        return "expected one final return of the accumulated set"
+    acc = norm(fin[0].value)
+    first = [st for st in g.node.body if isinstance(st, (ast.Assign, ast.AnnAssign)) and norm(st.targets[0] if isinstance(st, ast.Assign) else st.target) == acc]
+    if not first or norm(first[0].value) != "set()":
+        return f"the accumulated set `{acc}` must start empty"
+    for facts, want in cases:
+        fx = {k.replace("TL", tl).replace("TR", tr): v for k, v in facts.items()}
+        its = sym.iteration_effects(outs, inner, fx)
+        if want is None:
+            if not its or any(k != "raise" or "RuntimeError" not in norm(o.value or ast.Constant(value=None)) for k, _e, _env, o in its):
+                return f"under {fx} the pair must be rejected with a RuntimeError; found {[k for k, *_ in its]}"
+            continue
+        w = want.replace("TL", tl).replace("TR", tr)
+        if len(its) != 1 or its[0][0] not in ("fall", "continue") or its[0][1]:
+            return f"under {fx}: expected one silent way through the iteration, found {[(k, [norm(e) for e in ef]) for k, ef, *_ in its]}"
+        got = its[0][2].get(acc)
+        if got is None or sym.pm_any(["add_terms(%s, {%s})" % (acc, w)], got) is None:
+            return f"under {fx} the set must become add_terms({acc}, {{{w}}}); it becomes `{norm(got) if got is not None else None}`"
+    return None
+
+
 def r2(ctx):
     P = ctx.project
     f = P.func(OPS)
@@ -255,7 +297,27 @@ def r2(ctx):
                 return lhs + rhs
         """,
     }
+    PAIR = {"mul_term": ("mul_terms", [({"TL.factor == 1": True}, "ScaledFactor(TR.factor, scale=TL.scale * TR.scale)"),
+                                       ({"TL.factor == 1": False, "TR.factor == 1": True}, "ScaledFactor(TL.factor, scale=TL.scale * TR.scale)"),
+                                       ({"TL.factor == 1": False, "TR.factor == 1": False}, None)]),
+            "div_term": ("div_terms", [({"TR.factor == 1": True}, "ScaledFactor(TL.factor, scale=TL.scale / TR.scale)"), ({"TR.factor == 1": False}, None)])}
+    inlined = set()
+    for helper, (outer, cases) in PAIR.items():
+        try:
+            f.locals_named(helper)
+            continue
+        except AnalysisError:
+            pass
+        # the per-pair helper has been written into the loop of its only caller: decide the same denotation on the loop's iteration summaries
+        g = f.locals_named(outer)
+        ctx.look()
+        inlined |= {helper, outer}
+        why = _pairwise_inline(g, cases)
+        ctx.check(why is None, "C16.R2", f"{helper} has its documented denotation", g.where, ctx.construct(g, text=f"denotation of {helper} (inlined)"), f"{why}")
+        ctx.check(why is None, "C16.R2", f"{outer} has its documented denotation", g.where, ctx.construct(g, text="denotation"), f"{why}")
     for name, w in SKEL.items():
+        if name in inlined:
+            continue
         g = f.locals_named(name)
         ctx.look()
         # the skeleton's parameter names are those of the function as written today; renaming a parameter is harmless
